@@ -178,17 +178,29 @@ theorem predictMean_eq (trees : List TreeOut) (order : List Nat) (hn : trees ≠
   have hl : trees.length ≠ 0 := by simpa using hn
   simp only [predictMean, hl, if_false, accMean_eq, sumL_map_permute _ trees order ho, specMean]
 
+/-- the tail of `_return_mean_and_std` applied to the complete sums, in closed form -/
+theorem finishStd_closed (minVar : Rat) (l : List TreeOut) :
+    finishStd (l.length : Rat)
+        (sumL (l.map (·.1)), sumL (l.map (fun t => rmax t.2 minVar + t.1 * t.1)))
+      = ⟨specMean l, rmax (specAl minVar l + specEp l) 0⟩ := by
+  unfold finishStd
+  rw [sumL_add (fun t => rmax t.2 minVar) (fun t => t.1 * t.1)]
+  simp only [specAl, specEp, specMean]
+  congr 2
+  ring
+
+theorem finishDis_closed (minVar : Rat) (l : List TreeOut) :
+    finishDis (l.length : Rat)
+        (sumL (l.map (·.1)), sumL (l.map (fun t => rmax t.2 minVar)), sumL (l.map (fun t => t.1 * t.1)))
+      = ⟨specMean l, clamp0 (specAl minVar l), clamp0 (specEp l)⟩ := rfl
+
 theorem predictStd_eq (minVar : Rat) (trees : List TreeOut) (order : List Nat) (hn : trees ≠ [])
     (ho : OrderOK trees.length order) :
     predictStd minVar trees order
       = some ⟨specMean trees, rmax (specAl minVar trees + specEp trees) 0⟩ := by
   have hl : trees.length ≠ 0 := by simpa using hn
   simp only [predictStd, hl, if_false, accStd_eq, sumL_map_permute _ trees order ho]
-  congr 2
-  rw [sumL_add (fun t => rmax t.2 minVar) (fun t => t.1 * t.1)]
-  simp only [specAl, specEp, specMean]
-  congr 1
-  ring
+  rw [finishStd_closed]
 
 theorem predictDis_eq (minVar : Rat) (trees : List TreeOut) (order : List Nat) (hn : trees ≠ [])
     (ho : OrderOK trees.length order) :
@@ -196,6 +208,340 @@ theorem predictDis_eq (minVar : Rat) (trees : List TreeOut) (order : List Nat) (
       = some ⟨specMean trees, clamp0 (specAl minVar trees), clamp0 (specEp trees)⟩ := by
   have hl : trees.length ≠ 0 := by simpa using hn
   simp only [predictDis, hl, if_false, accDis_eq, sumL_map_permute _ trees order ho]
-  rfl
+  rw [finishDis_closed]
+
+/-! ### blocks of trees -/
+
+theorem sumL_append (a b : List Rat) : sumL (a ++ b) = sumL a + sumL b := by
+  induction a with
+  | nil => simp [sumL]
+  | cons x xs ih => simp only [List.cons_append, sumL, ih]; ring
+
+theorem permute_flatten (trees : List TreeOut) (blocks : List (List Nat)) :
+    (blocks.map (permute trees)).flatten = permute trees blocks.flatten := by
+  unfold permute
+  rw [List.filterMap_flatten]
+
+theorem accStdBlocks_gen (minVar : Rat) (bs : List (List TreeOut)) (a b : Rat) :
+    bs.foldl (fun out blk => (out.1 + (accStd minVar blk).1, out.2 + (accStd minVar blk).2)) (a, b)
+      = (a + sumL (bs.flatten.map (·.1)),
+         b + sumL (bs.flatten.map (fun t => rmax t.2 minVar + t.1 * t.1))) := by
+  induction bs generalizing a b with
+  | nil => simp [sumL]
+  | cons x xs ih =>
+    simp only [List.foldl_cons]
+    rw [ih]
+    simp only [List.flatten_cons, List.map_append, sumL_append, accStd_eq]
+    congr 1 <;> ring
+
+theorem accStdBlocks_eq (minVar : Rat) (bs : List (List TreeOut)) :
+    accStdBlocks minVar bs = accStd minVar bs.flatten := by
+  unfold accStdBlocks
+  rw [accStdBlocks_gen, accStd_eq]; simp
+
+theorem accDisBlocks_gen (minVar : Rat) (bs : List (List TreeOut)) (a b c : Rat) :
+    bs.foldl (fun out blk => (out.1 + (accDis minVar blk).1, out.2.1 + (accDis minVar blk).2.1,
+        out.2.2 + (accDis minVar blk).2.2)) (a, b, c)
+      = (a + sumL (bs.flatten.map (·.1)), b + sumL (bs.flatten.map (fun t => rmax t.2 minVar)),
+         c + sumL (bs.flatten.map (fun t => t.1 * t.1))) := by
+  induction bs generalizing a b c with
+  | nil => simp [sumL]
+  | cons x xs ih =>
+    simp only [List.foldl_cons]
+    rw [ih]
+    simp only [List.flatten_cons, List.map_append, sumL_append, accDis_eq]
+    congr 1
+    · ring
+    · congr 1 <;> ring
+
+theorem accDisBlocks_eq (minVar : Rat) (bs : List (List TreeOut)) :
+    accDisBlocks minVar bs = accDis minVar bs.flatten := by
+  unfold accDisBlocks
+  rw [accDisBlocks_gen, accDis_eq]; simp
+
+theorem accMeanBlocks_gen (bs : List (List TreeOut)) (a : Rat) :
+    bs.foldl (fun out blk => out + accMean blk) a = a + sumL (bs.flatten.map (·.1)) := by
+  induction bs generalizing a with
+  | nil => simp [sumL]
+  | cons x xs ih =>
+    simp only [List.foldl_cons]
+    rw [ih]
+    simp only [List.flatten_cons, List.map_append, sumL_append, accMean_eq]
+    ring
+
+theorem accMeanBlocks_eq (bs : List (List TreeOut)) : accMeanBlocks bs = accMean bs.flatten := by
+  unfold accMeanBlocks
+  rw [accMeanBlocks_gen, accMean_eq]; simp
+
+/-- the blocks cover every tree exactly once -/
+def PartitionOK (n : Nat) (blocks : List (List Nat)) : Prop := OrderOK n blocks.flatten
+
+theorem predictMeanBlocks_flat (trees : List TreeOut) (blocks : List (List Nat)) :
+    predictMeanBlocks trees blocks = predictMean trees blocks.flatten := by
+  unfold predictMeanBlocks predictMean
+  rw [accMeanBlocks_eq, permute_flatten]
+
+theorem predictStdBlocks_flat (minVar : Rat) (trees : List TreeOut) (blocks : List (List Nat)) :
+    predictStdBlocks minVar trees blocks = predictStd minVar trees blocks.flatten := by
+  unfold predictStdBlocks predictStd
+  rw [accStdBlocks_eq, permute_flatten]
+
+theorem predictDisBlocks_flat (minVar : Rat) (trees : List TreeOut) (blocks : List (List Nat)) :
+    predictDisBlocks minVar trees blocks = predictDis minVar trees blocks.flatten := by
+  unfold predictDisBlocks predictDis
+  rw [accDisBlocks_eq, permute_flatten]
+
+/-! ### the vectorised batch: row `j` of the result only sees column `j` -/
+
+theorem vadd_length (a b : List Rat) : (vadd a b).length = min a.length b.length := by
+  unfold vadd; simp
+
+theorem accVec_gen_length (g : TreeOut → Rat) (nrows : Nat) (ts : List TreeRows) (acc : List Rat)
+    (hacc : acc.length = nrows) (hlen : ∀ t ∈ ts, t.length = nrows) :
+    (ts.foldl (fun out t => vadd out (t.map g)) acc).length = nrows := by
+  induction ts generalizing acc with
+  | nil => simpa using hacc
+  | cons t ts ih =>
+    simp only [List.foldl_cons]
+    apply ih
+    · rw [vadd_length, List.length_map, hacc, hlen t (by simp)]; simp
+    · intro t' ht'; exact hlen t' (by simp [ht'])
+
+theorem accVec_gen (g : TreeOut → Rat) (nrows : Nat) (ts : List TreeRows) (acc : List Rat)
+    (hacc : acc.length = nrows) (hlen : ∀ t ∈ ts, t.length = nrows) (j : Nat) (hj : j < nrows) :
+    (ts.foldl (fun out t => vadd out (t.map g)) acc)[j]?
+      = acc[j]?.map (fun a => a + sumL ((col j ts).map g)) := by
+  induction ts generalizing acc with
+  | nil =>
+    have : (fun a : Rat => a + sumL ((col j ([] : List TreeRows)).map g)) = id := by
+      funext a; simp [col, sumL]
+    simp [this]
+  | cons t ts ih =>
+    have htl : t.length = nrows := hlen t (by simp)
+    have hjt : j < t.length := by omega
+    have hja : j < acc.length := by omega
+    simp only [List.foldl_cons]
+    rw [ih (vadd acc (t.map g))
+      (by rw [vadd_length, List.length_map, hacc, htl]; simp)
+      (fun t' ht' => hlen t' (by simp [ht']))]
+    have hcol : col j (t :: ts) = t[j] :: col j ts := by
+      unfold col
+      rw [List.filterMap_cons]
+      simp [List.getElem?_eq_getElem hjt]
+    rw [hcol]
+    unfold vadd
+    rw [List.getElem?_zipWith, List.getElem?_eq_getElem hja, List.getElem?_map,
+      List.getElem?_eq_getElem hjt]
+    simp only [Option.map_some, List.map_cons, sumL]
+    congr 1
+    ring
+
+theorem accVec_getElem? (g : TreeOut → Rat) (nrows : Nat) (ts : List TreeRows)
+    (hlen : ∀ t ∈ ts, t.length = nrows) (j : Nat) (hj : j < nrows) :
+    (accVec g nrows ts)[j]? = some (sumL ((col j ts).map g)) := by
+  unfold accVec
+  rw [accVec_gen g nrows ts _ (by simp) hlen j hj, List.getElem?_replicate_of_lt hj]
+  simp
+
+theorem accVec_length (g : TreeOut → Rat) (nrows : Nat) (ts : List TreeRows)
+    (hlen : ∀ t ∈ ts, t.length = nrows) : (accVec g nrows ts).length = nrows :=
+  accVec_gen_length g nrows ts _ (by simp) hlen
+
+theorem col_length (j nrows : Nat) (trees : List TreeRows) (hlen : ∀ t ∈ trees, t.length = nrows)
+    (hj : j < nrows) : (col j trees).length = trees.length := by
+  induction trees with
+  | nil => rfl
+  | cons t ts ih =>
+    have hjt : j < t.length := by rw [hlen t (by simp)]; exact hj
+    unfold col at ih ⊢
+    rw [List.filterMap_cons]
+    simp only [List.getElem?_eq_getElem hjt, List.length_cons]
+    rw [ih (fun t' ht' => hlen t' (by simp [ht']))]
+
+theorem permute_perm' {α : Type} (l : List α) (order : List Nat) (h : OrderOK l.length order) :
+    (permute l order).Perm l := by
+  have hr : ∀ (l : List α), List.filterMap (fun i => l[i]?) (List.range l.length) = l := by
+    intro l
+    induction l with
+    | nil => rfl
+    | cons a as ih =>
+      rw [List.length_cons, List.range_succ_eq_map, List.filterMap_cons]
+      simp only [List.getElem?_cons_zero, List.filterMap_map]
+      congr 1
+  have := List.Perm.filterMap (fun i => l[i]?) h
+  rw [hr l] at this
+  exact this
+
+theorem mem_permute {α : Type} (l : List α) (order : List Nat) (x : α) (hx : x ∈ permute l order) :
+    x ∈ l := by
+  unfold permute at hx
+  rcases List.mem_filterMap.1 hx with ⟨i, _, hi⟩
+  exact List.mem_of_getElem? hi
+
+theorem sumL_col_permute (g : TreeOut → Rat) (j : Nat) (trees : List TreeRows) (order : List Nat)
+    (ho : OrderOK trees.length order) :
+    sumL ((col j (permute trees order)).map g) = sumL ((col j trees).map g) := by
+  apply sumL_perm
+  apply List.Perm.map
+  unfold col
+  exact List.Perm.filterMap _ (permute_perm' trees order ho)
+
+theorem hlen_permute (nrows : Nat) (trees : List TreeRows) (order : List Nat)
+    (hlen : ∀ t ∈ trees, t.length = nrows) : ∀ t ∈ permute trees order, t.length = nrows :=
+  fun t ht => hlen t (mem_permute trees order t ht)
+
+theorem col_ne_nil (j nrows : Nat) (trees : List TreeRows) (hn : trees ≠ [])
+    (hlen : ∀ t ∈ trees, t.length = nrows) (hj : j < nrows) : col j trees ≠ [] := by
+  intro h
+  have := col_length j nrows trees hlen hj
+  rw [h] at this
+  exact hn (List.eq_nil_of_length_eq_zero this.symm)
+
+theorem predictMeanBatch_row (nrows : Nat) (trees : List TreeRows) (order o' : List Nat)
+    (hn : trees ≠ []) (hlen : ∀ t ∈ trees, t.length = nrows)
+    (ho : OrderOK trees.length order) (ho' : OrderOK trees.length o') (j : Nat) (hj : j < nrows) :
+    (predictMeanBatch nrows trees order).bind (·[j]?) = predictMean (col j trees) o' := by
+  have hl : trees.length ≠ 0 := by simpa using hn
+  have hc := col_length j nrows trees hlen hj
+  rw [predictMean_eq (col j trees) o' (col_ne_nil j nrows trees hn hlen hj) (by rw [hc]; exact ho')]
+  simp only [predictMeanBatch, hl, if_false, Option.bind_some, List.getElem?_map]
+  rw [accVec_getElem? _ nrows _ (hlen_permute nrows trees order hlen) j hj,
+    sumL_col_permute _ j trees order ho]
+  simp only [Option.map_some, specMean, hc]
+
+theorem predictStdBatch_row (minVar : Rat) (nrows : Nat) (trees : List TreeRows) (order o' : List Nat)
+    (hn : trees ≠ []) (hlen : ∀ t ∈ trees, t.length = nrows)
+    (ho : OrderOK trees.length order) (ho' : OrderOK trees.length o') (j : Nat) (hj : j < nrows) :
+    (predictStdBatch minVar nrows trees order).bind (·[j]?) = predictStd minVar (col j trees) o' := by
+  have hl : trees.length ≠ 0 := by simpa using hn
+  have hc := col_length j nrows trees hlen hj
+  rw [predictStd_eq minVar (col j trees) o' (col_ne_nil j nrows trees hn hlen hj) (by rw [hc]; exact ho')]
+  simp only [predictStdBatch, hl, if_false, Option.bind_some]
+  rw [List.getElem?_zipWith,
+    accVec_getElem? _ nrows _ (hlen_permute nrows trees order hlen) j hj,
+    accVec_getElem? _ nrows _ (hlen_permute nrows trees order hlen) j hj,
+    sumL_col_permute _ j trees order ho, sumL_col_permute _ j trees order ho]
+  simp only
+  rw [← hc, finishStd_closed]
+
+theorem predictDisBatch_row (minVar : Rat) (nrows : Nat) (trees : List TreeRows) (order o' : List Nat)
+    (hn : trees ≠ []) (hlen : ∀ t ∈ trees, t.length = nrows)
+    (ho : OrderOK trees.length order) (ho' : OrderOK trees.length o') (j : Nat) (hj : j < nrows) :
+    (predictDisBatch minVar nrows trees order).bind (·[j]?) = predictDis minVar (col j trees) o' := by
+  have hl : trees.length ≠ 0 := by simpa using hn
+  have hc := col_length j nrows trees hlen hj
+  rw [predictDis_eq minVar (col j trees) o' (col_ne_nil j nrows trees hn hlen hj) (by rw [hc]; exact ho')]
+  simp only [predictDisBatch, hl, if_false, Option.bind_some]
+  have hp := hlen_permute nrows trees order hlen
+  have h1 := accVec_getElem? (fun t => rmax t.2 minVar) nrows _ hp j hj
+  have h2 := accVec_getElem? (fun t => t.1 * t.1) nrows _ hp j hj
+  have hz : ((accVec (fun t => rmax t.2 minVar) nrows (permute trees order)).zip
+      (accVec (fun t => t.1 * t.1) nrows (permute trees order)))[j]?
+      = some (sumL ((col j (permute trees order)).map (fun t => rmax t.2 minVar)),
+              sumL ((col j (permute trees order)).map (fun t => t.1 * t.1))) :=
+    List.getElem?_zip_eq_some.2 ⟨h1, h2⟩
+  rw [List.getElem?_zipWith, hz,
+    accVec_getElem? _ nrows _ hp j hj,
+    sumL_col_permute _ j trees order ho, sumL_col_permute _ j trees order ho,
+    sumL_col_permute _ j trees order ho]
+  simp only
+  rw [← hc, finishDis_closed]
+
+theorem batch_lengths (minVar : Rat) (nrows : Nat) (trees : List TreeRows) (order : List Nat)
+    (hn : trees ≠ []) (hlen : ∀ t ∈ trees, t.length = nrows) :
+    (∃ ms, predictMeanBatch nrows trees order = some ms ∧ ms.length = nrows) ∧
+    (∃ ss, predictStdBatch minVar nrows trees order = some ss ∧ ss.length = nrows) ∧
+    (∃ ds, predictDisBatch minVar nrows trees order = some ds ∧ ds.length = nrows) := by
+  have hl : trees.length ≠ 0 := by simpa using hn
+  have hp := hlen_permute nrows trees order hlen
+  refine ⟨⟨_, by rw [predictMeanBatch, if_neg hl], ?_⟩,
+    ⟨_, by rw [predictStdBatch, if_neg hl], ?_⟩,
+    ⟨_, by rw [predictDisBatch, if_neg hl], ?_⟩⟩
+  · simp [accVec_length _ nrows _ hp]
+  · simp [accVec_length _ nrows _ hp]
+  · simp [accVec_length _ nrows _ hp]
+
+/-! ### where the `min_variance` floor sits -/
+
+theorem le_rmax_right (a b : Rat) : b ≤ rmax a b := by
+  unfold rmax; split
+  · exact Rat.le_refl
+  · rename_i h; exact Rat.le_of_lt (Rat.not_le.1 h)
+
+theorem le_rmax_left (a b : Rat) : a ≤ rmax a b := by
+  unfold rmax; split
+  · assumption
+  · exact Rat.le_refl
+
+theorem rmax_mono_right (a : Rat) {b b' : Rat} (h : b ≤ b') : rmax a b ≤ rmax a b' := by
+  unfold rmax; split <;> split <;> linarith
+
+theorem sumL_le_sumL (f g : TreeOut → Rat) (l : List TreeOut) (h : ∀ t ∈ l, f t ≤ g t) :
+    sumL (l.map f) ≤ sumL (l.map g) := by
+  induction l with
+  | nil => simp [sumL]
+  | cons a as ih =>
+    simp only [List.map_cons, sumL]
+    have h1 := h a (by simp)
+    have h2 := ih (fun t ht => h t (by simp [ht]))
+    linarith
+
+theorem sumL_const (c : Rat) (l : List TreeOut) : sumL (l.map (fun _ => c)) = (l.length : Rat) * c := by
+  induction l with
+  | nil => simp [sumL]
+  | cons a as ih => simp only [List.map_cons, sumL, ih, List.length_cons]; push_cast; ring
+
+theorem length_pos_rat (l : List TreeOut) (hn : l ≠ []) : (0 : Rat) < (l.length : Rat) := by
+  have : 0 < l.length := List.length_pos_of_ne_nil hn
+  exact_mod_cast this
+
+/-- the averaged floored variance is at least the floor -/
+theorem minVar_le_specAl (minVar : Rat) (trees : List TreeOut) (hn : trees ≠ []) :
+    minVar ≤ specAl minVar trees := by
+  have hpos := length_pos_rat trees hn
+  have h := sumL_le_sumL (fun _ => minVar) (fun t => rmax t.2 minVar) trees
+    (fun t _ => le_rmax_right t.2 minVar)
+  rw [sumL_const] at h
+  unfold specAl
+  rw [le_div_iff₀ hpos]
+  linarith
+
+/-- … and at least the average of the raw leaf variances -/
+theorem rawAl_le_specAl (minVar : Rat) (trees : List TreeOut) (hn : trees ≠ []) :
+    rawAl trees ≤ specAl minVar trees := by
+  have hpos := length_pos_rat trees hn
+  have h := sumL_le_sumL (fun t => t.2) (fun t => rmax t.2 minVar) trees
+    (fun t _ => le_rmax_left t.2 minVar)
+  unfold specAl rawAl
+  exact div_le_div_of_nonneg_right h hpos.le
+
+theorem specAl_mono (trees : List TreeOut) {a b : Rat} (h : a ≤ b) :
+    specAl a trees ≤ specAl b trees := by
+  unfold specAl
+  apply div_le_div_of_nonneg_right
+  · exact sumL_le_sumL _ _ trees (fun t _ => rmax_mono_right t.2 h)
+  · exact_mod_cast Nat.zero_le _
+
+theorem specAl_of_all_le (minVar : Rat) (trees : List TreeOut) (hn : trees ≠ [])
+    (h : ∀ t ∈ trees, t.2 ≤ minVar) : specAl minVar trees = minVar := by
+  have hpos := length_pos_rat trees hn
+  have : trees.map (fun t => rmax t.2 minVar) = trees.map (fun _ => minVar) := by
+    apply List.map_congr_left
+    intro t ht; unfold rmax; simp [h t ht]
+  unfold specAl
+  rw [this, sumL_const]
+  field_simp
+
+theorem specAl_of_all_ge (minVar : Rat) (trees : List TreeOut)
+    (h : ∀ t ∈ trees, minVar ≤ t.2) : specAl minVar trees = rawAl trees := by
+  have : trees.map (fun t => rmax t.2 minVar) = trees.map (·.2) := by
+    apply List.map_congr_left
+    intro t ht
+    have := h t ht
+    unfold rmax; split
+    · exact Rat.le_antisymm this ‹_›
+    · rfl
+  unfold specAl rawAl
+  rw [this]
 
 end DH.Forest
